@@ -2,6 +2,7 @@ package main
 
 import (
 	"encoding/json"
+	"errors"
 	"flag"
 	"fmt"
 	"os"
@@ -14,10 +15,12 @@ import (
 
 	"github.com/pegnet/pegnetd/config"
 	"github.com/pegnet/pegnetd/node"
+	"github.com/pegnet/pegnetd/node/pegnet"
 
 	"verif/harness/gen"
 	"verif/harness/proj"
 	"verif/harness/run"
+	"verif/harness/sqlwrap"
 )
 
 func inAPIGoroutine() bool {
@@ -217,6 +220,51 @@ func cmdAPI(args []string) {
 			r.StopAPI()
 			r.StopNode()
 			r.Srv.Stop()
+		}
+		// ---- schedule 3 (Api.tla SyncCommitFail): COMMIT of block c fails once; a reader asks for the synced height right
+		//      after the failed COMMIT returned, before the sync goroutine has handled the error
+		{
+			g := &gate{}
+			node.VerifGate = g.hook
+			pegnet.VerifWrapDB = sqlwrap.Wrap
+			var fmu sync.Mutex
+			armed, injected := false, false
+			sqlwrap.Ctl.Hook = func(ev *sqlwrap.Event) error {
+				fmu.Lock()
+				defer fmu.Unlock()
+				if armed && !injected && ev.Kind == "commit" {
+					injected = true
+					return errors.New("database is locked (injected by verif)")
+				}
+				return nil
+			}
+			r := newRunner("failcommit")
+			for h := config.PegnetActivation + 1; h < cH; h++ {
+				r.Advance(h, 20*time.Second)
+			}
+			fmu.Lock()
+			armed = true
+			fmu.Unlock()
+			g.arm("sync:after-commit", false)
+			r.Srv.SetTip(cH)
+			feasible := g.wait(5 * time.Second)
+			var ss struct {
+				Sync int64 `json:"syncheight"`
+			}
+			r.Call("get-sync-status", nil, &ss)
+			committed := r.DBSynced()
+			g.open()
+			eq := finish(r, cH)
+			fmu.Lock()
+			inj := injected
+			fmu.Unlock()
+			emit(map[string]interface{}{"ev": "ApiExp", "schedule": "sync-status-after-failed-commit", "h": cH, "feasible": feasible && inj,
+				"seen": ss.Sync, "committed": committed, "equal": eq})
+			r.StopAPI()
+			r.StopNode()
+			r.Srv.Stop()
+			sqlwrap.Ctl.Hook = nil
+			pegnet.VerifWrapDB = nil
 		}
 		node.VerifGate = nil
 	} else {
